@@ -52,6 +52,13 @@ fn spread_cases() -> Vec<Case> {
             let why = if applicable { format!("{parent} and {cond} share a possible type") } else { format!("no object type is both a possible {parent} and a possible {cond}") };
             v.push(Case { family: "inline fragment applicability", label: format!("... on {cond} inside {parent}"), doc: format!("query {{ {field} {{ ... on {cond} {{ __typename }} }} }}"), expect_valid: applicable, why: why.clone() });
             v.push(Case { family: "fragment spread applicability", label: format!("...F (on {cond}) inside {parent}"), doc: format!("query {{ {field} {{ ...F }} }}\nfragment F on {cond} {{ __typename }}"), expect_valid: applicable, why: why.clone() });
+            // the body of an applicable fragment is validated against the condition type
+            if applicable {
+                let own_field = match cond { "K" => "kk", "L" => "ll", "P" | "M" => "mm", "J" => "id", "I2" => "z", _ => "__typename" };
+                v.push(Case { family: "fragment body validation", label: format!("... on {cond} {{ {own_field} }} inside {parent}"), doc: format!("query {{ {field} {{ ... on {cond} {{ {own_field} }} }} }}"), expect_valid: true, why: format!("{own_field} is a field of {cond}") });
+                v.push(Case { family: "fragment body validation", label: format!("... on {cond} {{ bogus }} inside {parent}"), doc: format!("query {{ {field} {{ ... on {cond} {{ bogus }} }} }}"), expect_valid: false, why: format!("bogus is not a field of {cond}") });
+                v.push(Case { family: "fragment body validation", label: format!("...F (on {cond}) {{ bogus }} inside {parent}"), doc: format!("query {{ {field} {{ ...F }} }}\nfragment F on {cond} {{ bogus }}"), expect_valid: false, why: format!("bogus is not a field of {cond}") });
+            }
             // through an intermediate inline fragment without type condition, and one level deeper
             v.push(Case { family: "fragment spread applicability", label: format!("... {{ ...F (on {cond}) }} inside {parent}"), doc: format!("query {{ {field} {{ ... {{ ...F }} }} }}\nfragment F on {cond} {{ __typename }}"), expect_valid: applicable, why: why.clone() });
             for (_, mid) in TYPES {
@@ -161,7 +168,7 @@ fn main() {
             continue;
         }
         let msg: String = out.stderr.lines().filter(|l| !l.trim().is_empty()).take(4).collect::<Vec<_>>().join(" | ").chars().take(300).collect();
-        let sig = format!("{}: {} although {}", c.family, if accepted { "accepted" } else { "rejected" }, if c.family.contains("applicability") { if c.expect_valid { "the types share a possible type".to_string() } else { "the types share no possible type".to_string() } } else { c.why.clone() });
+        let sig = format!("{}: {} although {}", c.family, if accepted { "accepted" } else { "rejected" }, if c.family == "fragment body validation" { if c.expect_valid { "the selected field exists".to_string() } else { "the selected field does not exist on the condition type".to_string() } } else if c.family.contains("applicability") { if c.expect_valid { "the types share a possible type".to_string() } else { "the types share no possible type".to_string() } } else { c.why.clone() });
         failures.push((i, sig, input, format!("expected {}: {}", if c.expect_valid { "valid" } else { "invalid" }, c.why), msg));
     }
     per_family.insert("agreed: accepted".into(), agree.0);
